@@ -147,6 +147,35 @@ def run(chk):
                 if (d >= 40 and g < 1.0 - 1e-9) or (d <= -40 and g > 1e-9):
                     chk.violation('failure probability for load and strength two decades apart is not 1 resp. 0', {'load_std': a / 100.0, 'strength_std': b / 100.0, 'log10_load_over_strength': d / 20.0}, 1.0 if d > 0 else 0.0, g, part='monotone')
                 prev = g
+    # off the lattice: seeded random scatter pairs over three and a half decades each (any scatter ratio) x probits in +-7.5, and strength medians exactly
+    # 16 load standard deviations away from the load median give or take a few ulps (the edge of the default integration window)
+    rng = np.random.default_rng(chk.seed + 15)
+    draws = [(10 ** rng.uniform(-4, -0.3), 10 ** rng.uniform(-4, -0.3), rng.uniform(-7.5, 7.5)) for _ in range(240 if quick else 3000)]
+    for sS, sL in ((0.12, 0.05), (0.001, 0.2), (0.2, 0.001), (0.04, 0.03)):
+        for k in (-16.0, 16.0):
+            for eps in (0.0, 2e-16, -2e-16, 3e-16, 1e-14, -1e-12, 1e-9, -1e-6):
+                draws.append((sS, sL, k * sL * (1 + eps) / float(np.hypot(sS, sL))))
+    from scipy.stats import norm
+    with warnings.catch_warnings(record=True) as caught:
+        warnings.simplefilter('always')
+        for sS, sL, zz in draws:
+            chk.evals(1)
+            c = float(np.hypot(sS, sL))
+            want = float(norm.cdf(zz))
+            case = {'strength_median': 100.0, 'strength_std': sS, 'load_median': 100.0 * 10.0 ** (zz * c), 'load_std': sL, 'probit': zz}
+            try:
+                g = float(FailureProbability(100.0, sS).pf_norm_load(case['load_median'], sL))
+            except Exception as ex:
+                chk.violation('pf_norm_load raised %r' % ex, case, want, None, part='random_pairs')
+                continue
+            if not near(g, want):
+                chk.violation('pf_norm_load differs from Phi((log10 L - log10 S) / sqrt(s_L^2 + s_S^2)) for a scatter pair off the lattice', case, want, g, part='random_pairs')
+            else:
+                chk.nontrivial(('random_pair', round(sS, 8), round(sL, 8), round(zz, 6)))
+    nwarn = [w for w in caught if 'Integration' in type(w.message).__name__ or 'integra' in str(w.message).lower()]
+    if nwarn:
+        chk.violation('pf_norm_load: the quadrature reports trouble (IntegrationWarning) for an ordinary log-normal load / strength pair', {'first_warning': str(nwarn[0].message)[:200], 'count': len(nwarn)}, None, None, part='random_pairs')
+    chk.part('random_pairs', pairs=len(draws))
     # call histories on ONE kept FailureProbability object (HeldCalls.tla): valid calls, a call that raises, then valid calls again
     res = tlc.run(os.path.join(SPEC, 'meanstress', 'MC_HeldCalls.tla'), os.path.join(SPEC, 'meanstress', 'MC_HeldCalls_failprob.cfg'), dump=True, timeout=600)
     chk.tlc('MC_HeldCalls_failprob.cfg', res, 'call histories on a kept FailureProbability object: every answer as from a fresh object, also after a call that raised')
@@ -195,7 +224,7 @@ def run(chk):
     chk.cov['rule'] = ('TLC enumerates strength medians x load/strength median ratios (steps of 1/20 decade) x scatter pairs that are legs of Pythagorean triples (in 1/100 decade; leg 0 = deterministic load), '
                        'incl. slender pairs (ratios 4.5, 20, 200) and medians up to 2.8 decades apart (probits beyond +-7), for which the probit of the analytic failure probability is an exact rational, and proves the order/mirror/limit laws on it; every state is evaluated through FailureProbability '
                        '(pf_simple_load, pf_norm_load incl. explicit limits and vanishing load scatter, pf_arbitrary_load on sampled log-normal densities of two resolutions). '
-                       'Non-trivial = different medians and a scattering load.')
+                       'Off the lattice: seeded random scatter pairs (1e-4 .. 0.5 each) x probits in +-7.5 and strength medians at the edge of the default integration window (+-16 load standard deviations, give or take ulps). Non-trivial = different medians and a scattering load.')
     chk.cov['exhaustive'] = True
     chk.assumptions += ['"stays in [0, 1]" is read up to rounding (1e-12): the quadrature returns 1.0000000000000002 for probits above 8', 'scipy.stats.norm.cdf of the exact probit is the reference value; agreement is required to 1e-9 absolute + 1e-5 of the smaller tail; for values between 1e-12 and 1e-6 to 0.1 % of the value; for values below 1e-12 (outside the range of the property) only that the answer is below 1e-12 too',
                         'pf_arbitrary_load is given the density on +-12 standard deviations around the load median; convergence = error at 3201 samples <= error at 401 samples and <= 1e-10 + 1e-6 of the smaller tail']
